@@ -133,7 +133,7 @@ func cmdGC(args []string) {
 				ins = append(ins, i+1)
 			}
 		}
-		bt := Battery{Search: true, Iter: true, MinMax: true}
+		bt := Battery{Search: true, Iter: true, MinMax: true, TopK: true, Range: 6, Prefix: 3}
 		// garbage pressure: allocate and drop while the tree is used
 		var junk [][]byte
 		for h := 0; h < *n; h++ {
@@ -318,9 +318,12 @@ func cmdMulti(args []string) {
 // ---- caller memory (C13) -----------------------------------------------------------------
 
 type arenaState struct {
-	buf    []byte // full capacity
-	before []byte
-	used   bool
+	buf        []byte // full capacity
+	before     []byte
+	used       bool
+	noScribble bool // memory handed out by the tree's iterator: compared, not overwritten
+	record     bool // record idiom: further keys of the same call follow at recOff
+	recOff     int
 }
 
 // cmdArena: []byte keys handed over as sub-slices of arenas (spare capacity with live
@@ -335,6 +338,7 @@ func cmdArena(args []string) {
 	n := fs.Int("n", 4, "")
 	length := fs.Int("len", 60, "")
 	stats := fs.String("stats", "", "")
+	bat := fs.String("battery", "search,iter,minmax,range=6,prefix=4,dump", "")
 	fs.Parse(args)
 	d := buildDriver(*kind, *uname, "q", *seed)
 	setter, ok := d.(interface{ setPassKeyBytes(func([]byte) []byte) })
@@ -349,11 +353,56 @@ func cmdArena(args []string) {
 	setter.setPassKeyBytes(func(k []byte) []byte {
 		var a *arenaState
 		var key []byte
-		m := mode % 3
+		m := mode % 6
 		if m == 2 && len(cur) > 0 {
 			m = 0 // a second key of the same call (Range) cannot share the scanner buffer
 		}
+		if m == 5 {
+			// record idiom: the keys of one call are adjacent fields of ONE buffer (start | end | rest of the record)
+			if len(cur) > 0 && cur[len(cur)-1].record {
+				prev := cur[len(cur)-1]
+				off := prev.recOff
+				if off+len(k) <= cap(prev.buf) {
+					full := prev.buf[:cap(prev.buf)]
+					copy(full[off:], k)
+					prev.before = cloneB(full) // the caller filled in the second field before the call
+					prev.recOff = off + len(k)
+					return full[off : off+len(k)]
+				}
+			}
+			buf := make([]byte, 2*len(k)+24)
+			for i := range buf {
+				buf[i] = byte('r' + i%7)
+			}
+			copy(buf, k)
+			a = &arenaState{buf: buf, record: true, recOff: len(k)}
+			a.before = cloneB(buf)
+			cur = append(cur, a)
+			return buf[:len(k)]
+		}
+		if m == 4 {
+			// a key the tree itself yielded earlier, cut down to k: its capacity runs on into whatever the
+			// iterator handed out
+			m = 0
+			if y, ok := d.(interface{ yieldedBytes() [][]byte }); ok {
+				for _, yk := range y.yieldedBytes() {
+					if len(yk) > len(k) && string(yk[:len(k)]) == string(k) {
+						a = &arenaState{buf: yk[:len(k)]}
+						key = yk[:len(k)]
+						a.before = cloneB(a.buf[:cap(a.buf)])
+						a.noScribble = true
+						cur = append(cur, a)
+						return key
+					}
+				}
+			}
+		}
 		switch m {
+		case 3: // sub-slice of a freshly made (zero-filled) buffer with spare capacity
+			buf := make([]byte, len(k), len(k)+1+r.Intn(8))
+			copy(buf, k)
+			key = buf
+			a = &arenaState{buf: buf}
 		case 0: // sub-slice with spare capacity holding live caller data
 			off := r.Intn(4)
 			buf := make([]byte, off+len(k)+1+r.Intn(8))
@@ -392,6 +441,9 @@ func cmdArena(args []string) {
 			tr.fBytes("after", a.buf[:cap(a.buf)])
 			tr.emit()
 			arenas++
+			if a.noScribble {
+				continue
+			}
 			// the caller now reuses its buffer
 			for i := range a.buf[:cap(a.buf)] {
 				a.buf[:cap(a.buf)][i] = byte(0x55 ^ i)
@@ -409,13 +461,15 @@ func cmdArena(args []string) {
 			ins = append(ins, i+1)
 		}
 	}
-	bt := Battery{Search: true, Iter: true, MinMax: true, Range: 6, Prefix: 4, Dump: true}
+	bt := parseBattery(*bat)
 	for h := 0; h < *n; h++ {
 		if h > 0 {
 			rec.Clear()
 		}
 		for i := 0; i < *length && !rec.Dead; i++ {
-			mode = r.Intn(3)
+			if i%4 == 0 || r.Intn(3) == 0 {
+				mode = r.Intn(6) // runs of consecutive calls in the same idiom (scanner buffer reused key after key)
+			}
 			if r.Intn(100) < 65 {
 				rec.Insert(ins[r.Intn(len(ins))])
 			} else {
@@ -631,6 +685,19 @@ func cmdMem(args []string) {
 		for i := 0; i < *ops/4; i++ {
 			k := 1 + r.Intn(len(uni))
 			switch i % 8 {
+			case 3:
+				for range d.Seq("TopK", 0, 0, 3) {
+				}
+				for range d.Seq("BottomK", 0, 0, 2) {
+					break
+				}
+			case 4:
+				for range d.Seq("All", 0, 0, 0) {
+					break
+				}
+				for range d.Seq("Backward", 0, 0, 0) {
+					break
+				}
 			case 0:
 				d.Min()
 			case 1:
